@@ -169,6 +169,10 @@ def enum_iter_specs(small: bool = False) -> Iterator[dict]:
                 if strict is not None:
                     params["strict"] = strict
                 yield {"tool": "batched", "srcs": [[k % 3 for k in range(n)]], "fns": [], "params": params}
+    # no iterables at all
+    for tool in ("zip", "zip_strict", "zip_longest", "chain", "chain_from_iterable", "merge"):
+        yield {"tool": tool, "srcs": [], "fns": [None] if tool == "merge" else [], "params": {}}
+    yield {"tool": "zip_longest", "srcs": [], "fns": [], "params": {"fillvalue": ["item", 9, "fill"]}}
     # length vectors
     for vec in enum_length_vectors(3 if small else 4, 3):
         srcs = [[(i + s) % 2 for i in range(n)] for s, n in enumerate(vec)]
